@@ -49,6 +49,7 @@ type cmpAbs struct {
 	header     *ssa.BasicBlock
 	statePhis  []*ssa.Phi
 	loadOf     map[*ssa.IndexAddr]*ssa.Parameter
+	preset     map[*ssa.Call][]av // results of the call to the helper that holds the loop (per order state)
 }
 
 func bi(x int64) *big.Int { return big.NewInt(x) }
@@ -197,6 +198,7 @@ type cmpOutcome struct {
 	kind   string // "back", "return", "panic"
 	state  []av   // for back: new values of the loop-carried phis
 	ret    av
+	rets   []av
 	retPos string
 }
 
@@ -410,6 +412,32 @@ func (c *cmpAbs) step(in ssa.Instruction, env map[ssa.Value]av, caseD string) {
 		case token.OR:
 			za, ka := c.isZero(a)
 			zb, kb := c.isZero(b)
+			// x | -x: the sign bit is set exactly when x != 0
+			negOf := func(p, q ssa.Value) bool {
+				if u, ok := q.(*ssa.UnOp); ok && u.Op == token.SUB && u.X == p {
+					return true
+				}
+				if bo, ok := q.(*ssa.BinOp); ok && bo.Op == token.SUB && bo.Y == p {
+					if k, ok := constU64(bo.X); ok && k == 0 {
+						return true
+					}
+				}
+				return false
+			}
+			if w, signed := typeBits(x.Type()); w > 0 && !signed && (negOf(x.X, x.Y) || negOf(x.Y, x.X)) {
+				src := a
+				if negOf(x.Y, x.X) {
+					src = b
+				}
+				if z, k := c.isZero(src); k {
+					if z {
+						env[val] = avConst(bi(0))
+					} else {
+						env[val] = c.fresh(pow2(uint(w-1)), new(big.Int).Sub(pow2(uint(w)), bi(1)), true)
+					}
+					return
+				}
+			}
 			switch {
 			case ka && za:
 				out = b
@@ -578,6 +606,13 @@ func (c *cmpAbs) step(in ssa.Instruction, env map[ssa.Value]av, caseD string) {
 }
 
 func (c *cmpAbs) call(x *ssa.Call, env map[ssa.Value]av) av {
+	if tv, ok := c.preset[x]; ok {
+		if len(tv) == 1 {
+			return tv[0]
+		}
+		c.tuples[x] = tv
+		return av{}
+	}
 	cal := x.Call.StaticCallee()
 	if cal == nil || cal.Pkg == nil {
 		return c.topResult(x)
@@ -773,8 +808,11 @@ func (c *cmpAbs) walk(b, pred *ssa.BasicBlock, env map[ssa.Value]av, first bool,
 			return
 		case *ssa.Return:
 			o := cmpOutcome{kind: "return", retPos: c.p.InstrPos(x)}
-			if len(retVals(x)) == 1 {
-				o.ret = c.eval(retVals(x)[0], env)
+			for _, rv := range retVals(x) {
+				o.rets = append(o.rets, c.eval(rv, env))
+			}
+			if len(o.rets) == 1 {
+				o.ret = o.rets[0]
 			}
 			*outs = append(*outs, o)
 			return
@@ -850,14 +888,96 @@ func checkC20(cx *Ctx, r *Report) {
 	if fn == nil {
 		return
 	}
-	key := "utils.ConstantTimeCmp"
+	analyzeCmp(r, p, fn, "utils.ConstantTimeCmp")
+	c20NAF(r, p)
+	c20Controls(cx, r)
+}
+
+// c20Controls: the comparison analysis must report a broken comparison and accept a correct one written differently
+func c20Controls(cx *Ctx, r *Report) {
+	p, err := LoadControls(controlsDir(cx), "amd64")
+	if err != nil {
+		r.Fatalf("positive controls: %v", err)
+		return
+	}
+	for name, wantViol := range map[string]bool{"zzctl/cmpctl.DiffOverwritten": true, "zzctl/cmpctl.MaskCompare": false} {
+		fn := p.Func(name)
+		if fn == nil {
+			r.Fatalf("positive control %s not found", name)
+			return
+		}
+		sub := NewReport("C20", "quick", "other")
+		analyzeCmp(sub, p, fn, name)
+		nviol := 0
+		for _, o := range sub.Obls {
+			if o.Status == VIOLATED {
+				nviol++
+			}
+		}
+		r.Count("positive_controls", 1)
+		if (nviol > 0) != wantViol || len(sub.Obls) == 0 {
+			r.Fatalf("positive control %s: expected violation=%v, engine reported %d violated of %d obligations", name, wantViol, nviol, len(sub.Obls))
+		} else {
+			r.Ok("POSITIVE-CONTROL", name, "checker/testdata/controls/cmpctl", fmt.Sprintf("comparison analysis reports violation=%v as expected", wantViol))
+		}
+	}
+}
+
+// analyzeCmp: CMP-OPERANDS, CMP-LOOP, CMP-RESULT for one comparison function (a, b []byte, l int) int
+func analyzeCmp(r *Report, p *Prog, fn *ssa.Function, key string) {
 	pos := p.Pos(fn.Pos())
 	if len(fn.Params) != 3 {
 		r.Viol("CMP-LOOP", key, pos, "signature is not (a, b []byte, l int)")
 		return
 	}
+	// the loop may live in a helper that receives a, b and l: analyse the loop there and the decision here
+	outer := fn
+	var outerCall *ssa.Call
+	hasLoop := func(f *ssa.Function) bool {
+		for _, b := range f.Blocks {
+			for _, pr := range b.Preds {
+				if b.Dominates(pr) {
+					return true
+				}
+			}
+		}
+		return false
+	}
+	var mapped [3]*ssa.Parameter
+	if !hasLoop(fn) {
+		for _, b := range fn.Blocks {
+			for _, in := range b.Instrs {
+				call, ok := in.(*ssa.Call)
+				if !ok {
+					continue
+				}
+				g := call.Call.StaticCallee()
+				if g == nil || !isRepoFunc(g) || len(g.Blocks) == 0 || !hasLoop(g) {
+					continue
+				}
+				var m [3]*ssa.Parameter
+				n := 0
+				for i, a := range call.Call.Args {
+					for k := 0; k < 3; k++ {
+						if a == ssa.Value(fn.Params[k]) && i < len(g.Params) {
+							m[k] = g.Params[i]
+							n++
+						}
+					}
+				}
+				if n == 3 && outerCall == nil {
+					outerCall, mapped = call, m
+				}
+			}
+		}
+	}
+	if outerCall != nil {
+		fn = outerCall.Call.StaticCallee()
+	} else {
+		mapped = [3]*ssa.Parameter{fn.Params[0], fn.Params[1], fn.Params[2]}
+	}
 	c := &cmpAbs{p: p, fn: fn, symRng: map[string][2]*big.Int{}, tuples: map[ssa.Value][]av{}}
-	c.pa, c.pb, c.pl = fn.Params[0], fn.Params[1], fn.Params[2]
+	c.pa, c.pb, c.pl = mapped[0], mapped[1], mapped[2]
 	// the loop: a block with phis and a predecessor it dominates
 	var headers []*ssa.BasicBlock
 	for _, b := range fn.Blocks {
@@ -1083,6 +1203,26 @@ func checkC20(cx *Ctx, r *Report) {
 							}
 						}
 					case "return":
+						if outerCall != nil {
+							// evaluate the caller with the helper's results for this order state
+							oc := &cmpAbs{p: p, fn: outer, symRng: c.symRng, tuples: map[ssa.Value][]av{}, preset: map[*ssa.Call][]av{outerCall: o.rets}, loadOf: map[*ssa.IndexAddr]*ssa.Parameter{}}
+							var oouts []cmpOutcome
+							ob := 2000
+							oc.walk(outer.Blocks[0], nil, map[ssa.Value]av{}, false, &oouts, &ob)
+							for _, oo := range oouts {
+								if oo.kind != "return" {
+									continue
+								}
+								v := "unknown"
+								if oo.ret.lo != nil && oo.ret.lo.Cmp(oo.ret.hi) == 0 {
+									v = oo.ret.lo.String()
+								} else if oo.ret.lo != nil {
+									v = "a value in " + oo.ret.String()
+								}
+								rets[s][v] = oo.retPos
+							}
+							continue
+						}
 						v := "unknown"
 						if o.ret.lo != nil && o.ret.lo.Cmp(o.ret.hi) == 0 {
 							v = o.ret.lo.String()
@@ -1107,7 +1247,6 @@ func checkC20(cx *Ctx, r *Report) {
 	}
 	r.Count("cmp_transitions", ntrans)
 	r.Floor("cmp_transitions", 9)
-	defer c20NAF(r, p)
 	want := []string{"0", "-1", "1"}
 	for s := 0; s < 3; s++ {
 		var ivs []string
